@@ -30,7 +30,10 @@ use core::cell::Cell;
 use core::ptr;
 use core::slice::Iter;
 use core::sync::atomic::Ordering::*;
+#[cfg(not(arc_swap_verif))]
 use core::sync::atomic::{AtomicPtr, AtomicUsize};
+#[cfg(arc_swap_verif)]
+use crate::verif::atomic::{AtomicPtr, AtomicUsize};
 
 #[cfg(feature = "experimental-thread-local")]
 use core::cell::OnceCell;
@@ -367,5 +370,69 @@ mod tests {
     #[test]
     fn new_empty() {
         assert!(Node::get_thread().is_empty());
+    }
+}
+
+/// Accessors for the verification harness (`--cfg arc_swap_verif` only).
+#[cfg(arc_swap_verif)]
+pub(crate) mod verif_hooks {
+    use super::*;
+    use crate::verif::NodeSnapshot;
+    use alloc::vec::Vec;
+
+    /// All nodes, head of the list first, read without the hooks.
+    pub fn nodes() -> Vec<NodeSnapshot> {
+        let mut out = Vec::new();
+        let mut cur = LIST_HEAD.0.load(SeqCst) as *const Node;
+        while let Some(node) = unsafe { cur.as_ref() } {
+            let h = node.helping.verif_raw();
+            out.push(NodeSnapshot {
+                addr: node as *const _ as usize,
+                fast: node.fast.verif_raw(),
+                control: h[0],
+                slot: h[1],
+                active_addr: h[2],
+                handover: h[3],
+                space_offer: h[4],
+                in_use: (&node.in_use as *const _ as usize, node.in_use.0.load(Relaxed)),
+                active_writers: (
+                    &node.active_writers as *const _ as usize,
+                    node.active_writers.0.load(Relaxed),
+                ),
+            });
+            cur = node.next;
+        }
+        out
+    }
+
+    pub fn list_head_addr() -> usize {
+        &LIST_HEAD as *const _ as usize
+    }
+
+    /// Forget all nodes (they are leaked anyway). Only sound while no thread owns a node.
+    pub fn reset_list() {
+        LIST_HEAD.0.store(ptr::null_mut(), SeqCst);
+    }
+
+    /// The node owned by the calling thread, if its thread-local storage is alive and has one.
+    pub fn thread_node() -> Option<usize> {
+        THREAD_HEAD
+            .try_with(|h| h.node.get().map(|n| n as *const _ as usize))
+            .ok()
+            .flatten()
+    }
+
+    /// The calling thread's transaction counter and fast-slot rotation offset.
+    pub fn thread_locals() -> Option<(usize, usize)> {
+        THREAD_HEAD
+            .try_with(|h| (h.helping.verif_generation(), h.fast.verif_offset()))
+            .ok()
+    }
+
+    /// Preset the calling thread's transaction counter (to reach the wrap-around).
+    pub fn set_generation(gen: usize) -> bool {
+        THREAD_HEAD
+            .try_with(|h| h.helping.verif_set_generation(gen))
+            .is_ok()
     }
 }
